@@ -546,6 +546,7 @@ func TestVerifC11Child(t *testing.T) {
 			{"rotate-equal-length", []int{1, 2}, []int{0}, []int{1}, 2},
 			{"rotate-larger", []int{1, 2, 3}, []int{0}, []int{1}, 3},
 			{"rotate-all-equal-length", []int{2, 3}, []int{0, 1}, nil, 2},
+			{"revoke-everything", []int{}, []int{0, 1}, nil, -1}, // the empty allow-list: nobody is accepted any more
 		} {
 			rc := rc
 			to := append([]int(nil), rc.to...)
@@ -588,9 +589,11 @@ func TestVerifC11Child(t *testing.T) {
 						return fmt.Sprintf("bystander-disturbed-by-revocation/k%d update=%v", k, to)
 					}
 				}
-				c, err := w.dial(rc.fresh)
-				if err != nil || vProbeWait(c, 3*time.Second) != "served" {
-					return fmt.Sprintf("newly-listed-key-refused/k%d update=%v", rc.fresh, to)
+				if rc.fresh >= 0 {
+					c, err := w.dial(rc.fresh)
+					if err != nil || vProbeWait(c, 3*time.Second) != "served" {
+						return fmt.Sprintf("newly-listed-key-refused/k%d update=%v", rc.fresh, to)
+					}
 				}
 				if d, err := w.dial(rc.revoked[0]); err == nil && vServed(d) {
 					return fmt.Sprintf("revoked-key-got-a-new-session/k%d update=%v", rc.revoked[0], to)
